@@ -80,6 +80,8 @@ func c06Alphabet() (full []xletter, core []xletter, errcore []xletter) {
 		Q(progRows, "ok"), Q("1:!boom", "error"), Q(" ", "blank"),
 		xl("Oversized", "oversized", "", "", oversizedMsg()), xl("UnknownType", "unknown", "", "", pgproto.Msg('z', nil)),
 		P("", progRowErr, "row-cannot-be-encoded-then-error"),
+		xl("Parse(\"\",rows, pre-declaring two parameter types)", "parse", "", progRows, pgproto.Parse("", progRows, 23, 25)),
+		xl("Parse(\"s\",rows, pre-declaring 300 parameter types)", "parse", "s", progRows, pgproto.Parse("s", progRows, make([]uint32, 300)...)),
 		P("", progWarn, "fails-with-severity-WARNING"), P("s", progNotice, "fails-with-severity-NOTICE"), P("", progJoin, "fails-with-joined-errors"),
 	}
 	xCloseCore = []xletter{P("", progRows, "rows"), B("", ""), CS(""), CP(""), E(""), DS(""), sync,
